@@ -3848,3 +3848,181 @@ func runUntagLoopsStopAtNull(c *Ctx, rule string) {
 		c.OK(rule, "Untag in loops", token.NoPos, "no call of Untag lies on a cycle")
 	}
 }
+
+// ---- C05-W2: type ids written to a ZNG stream are the ids of the types, names included.
+//
+// Type.ID() looks through type names (a named type reports the id of the type under the name);
+// zed.TypeID(t) is the id of t itself.  A typedef must refer to its inner type by the latter, or
+// `foo=bar=int64` is written as "foo names int64" and the reader loses the intermediate name.
+func runEncoderWritesTypeIDs(c *Ctx, rule string) {
+	p := c.P
+	c.Rule(rule, "in the methods of zngio.Encoder no value produced by the ID() method of a zed.Type reaches binary.AppendUvarint: ids written into typedefs come from zed.TypeID, which does not look through type names")
+	n := 0
+	bad := 0
+	for _, fn := range p.FuncsIn("zio/zngio") {
+		if fn.Signature.Recv() == nil || namedOf(fn.Signature.Recv().Type()) != "zio/zngio.Encoder" {
+			continue
+		}
+		for _, ci := range allCalls(fn) {
+			if calleeName(ci.Common()) != "encoding/binary.AppendUvarint" {
+				continue
+			}
+			n++
+			arg := ci.Common().Args[len(ci.Common().Args)-1]
+			if dependsOn(arg, func(v ssa.Value) bool {
+				call, ok := v.(*ssa.Call)
+				return ok && call.Common().IsInvoke() && call.Common().Method.Name() == "ID" && namedOf(call.Common().Value.Type()) == "super.Type"
+			}) || dependsOn(arg, func(v ssa.Value) bool {
+				call, ok := v.(*ssa.Call)
+				return ok && strings.HasSuffix(calleeName(call.Common()), ").ID") && strings.HasPrefix(calleeName(call.Common()), "(*super.Type")
+			}) {
+				bad++
+				c.Fail(rule, constructName(fn)+" writes an id obtained from Type.ID()", ci.Pos(), "the id written into the typedef comes from the ID() method, which looks through type names: `foo=bar=int64` is written as `foo` naming int64, and every reader gets `foo=int64` back - the type is not portable across contexts")
+			}
+		}
+	}
+	switch {
+	case n < 5:
+		c.Undecided(rule, "ids written by zngio.Encoder", "fewer than five uvarint writes found ("+sprint(n)+")")
+	case bad == 0:
+		c.OK(rule, "ids written by zngio.Encoder", token.NoPos, sprint(n)+" uvarint writes, none fed by Type.ID()")
+	}
+}
+
+// ---- C07-F2: only a leading filter is pushed into the scan.
+//
+// optimizer.matchFilter hands the scanner the predicate of the first operator of a source's
+// chain.  A filter found behind any other operator is not equivalent in front of it in general
+// (`uniq | where x==1` over 1,2,1 yields two values; filtering first yields one).
+func runOnlyLeadingFilterPushed(c *Ctx, rule string) {
+	p := c.P
+	c.Rule(rule, "optimizer.matchFilter tests for a dag.Filter only the element at index 0 of the operator chain it is given: no operator is skipped on the way to the filter that is lifted into the scan")
+	fn := p.Func("compiler/optimizer.matchFilter")
+	if fn == nil {
+		c.Undecided(rule, "compiler/optimizer.matchFilter", "anchor does not resolve")
+		return
+	}
+	n := 0
+	for _, b := range fn.Blocks {
+		for _, in := range b.Instrs {
+			ta, ok := in.(*ssa.TypeAssert)
+			if !ok || namedOf(ta.AssertedType) != "compiler/ast/dag.Filter" {
+				continue
+			}
+			n++
+			first := false
+			if u, ok := ta.X.(*ssa.UnOp); ok && u.Op == token.MUL {
+				if ia, ok := u.X.(*ssa.IndexAddr); ok && ia.X == fn.Params[0] {
+					if k, ok := ia.Index.(*ssa.Const); ok && k.Int64() == 0 {
+						first = true
+					}
+				}
+			}
+			construct := "compiler/optimizer.matchFilter position of the lifted filter"
+			if first {
+				c.OK(rule, construct, ta.Pos(), "element 0 of the chain")
+			} else {
+				c.Fail(rule, construct, ta.Pos(), "the filter that is lifted into the scan is looked for behind other operators: `uniq | where x==1` over {x:1}{x:2}{x:1} gives two values as analysed and one when the filter runs in the scanner, before uniq")
+			}
+		}
+	}
+	if n == 0 {
+		c.Undecided(rule, "compiler/optimizer.matchFilter", "no test for a dag.Filter found")
+	}
+}
+
+// ---- C19-Q1: the client labels batches with the channel the service last selected.
+//
+// The service sends QueryChannelSet only when the channel changes from the last batch it wrote;
+// a QueryChannelEnd does not reset that.  The client's current channel may therefore change only
+// on a QueryChannelSet: forgetting it at a channel end mislabels every later batch of the channel
+// that was current on the server ("" instead of "main"), and consumers that route by label drop
+// them without an error.
+func runClientChannelFollowsSet(c *Ctx, rule string) {
+	p := c.P
+	c.Rule(rule, "in queryio.scanner.Pull every store to the scanner's channel takes its value from the Channel field of a QueryChannelSet message: the client's notion of the current channel changes exactly when the service's does")
+	fn := p.Func("(*api/queryio.scanner).Pull")
+	if fn == nil {
+		c.Undecided(rule, "(*api/queryio.scanner).Pull", "anchor does not resolve")
+		return
+	}
+	n, bad := 0, 0
+	for _, b := range fn.Blocks {
+		for _, in := range b.Instrs {
+			st, ok := in.(*ssa.Store)
+			if !ok {
+				continue
+			}
+			fa, ok := st.Addr.(*ssa.FieldAddr)
+			if !ok || fa.X != fn.Params[0] || fieldName(fa.X.Type(), fa.Field) != "channel" {
+				continue
+			}
+			n++
+			fromSet := dependsOn(st.Val, func(v ssa.Value) bool {
+				f, ok := v.(*ssa.FieldAddr)
+				return ok && namedOf(f.X.Type()) == "api.QueryChannelSet" && fieldName(f.X.Type(), f.Field) == "Channel"
+			})
+			if !fromSet {
+				bad++
+				c.Fail(rule, "(*api/queryio.scanner).Pull changes the current channel", st.Pos(), "the client's current channel is changed by something other than a QueryChannelSet: after output `side` ends while `main` is the channel selected on the server, the remaining batches of `main` arrive labelled \"\" and `super db query` drops them silently - a multi-output query returns fewer rows through the service than directly")
+			}
+		}
+	}
+	switch {
+	case n == 0:
+		c.Undecided(rule, "(*api/queryio.scanner).Pull", "no store to the scanner's channel found")
+	case bad == 0:
+		c.OK(rule, "(*api/queryio.scanner).Pull changes the current channel", fn.Pos(), sprint(n)+" stores, all from QueryChannelSet.Channel")
+	}
+}
+
+// ---- C07-M2: several sorted parents make a sorted input only for a merge.
+//
+// propagateSortKeyOp condenses the sort keys of an operator's parents into one.  Parents that
+// are each sorted arrive interleaved unless the operator is a merge, so for more than one parent
+// the common key may be used by a dag.Merge only; otherwise `fork (=> pass => pass) | count() by ts`
+// over sorted input is split into partials whose final summarize streams on input that is not
+// sorted, and returns groups twice.
+func runMultiParentSortKeyOnlyForMerge(c *Ctx, rule string) {
+	p := c.P
+	c.Rule(rule, "in optimizer.propagateSortKeyOp a test of len(parents) > 1 leads, on its true edge, to a test for *dag.Merge before the per-operator dispatch: the common sort key of several parents is kept for a merge and dropped for every other operator")
+	fn := p.Func("(*compiler/optimizer.Optimizer).propagateSortKeyOp")
+	if fn == nil || len(fn.Params) < 3 {
+		c.Undecided(rule, "(*compiler/optimizer.Optimizer).propagateSortKeyOp", "anchor does not resolve")
+		return
+	}
+	parents := fn.Params[2]
+	ok := false
+	for _, b := range fn.Blocks {
+		for _, in := range b.Instrs {
+			cmp, isCmp := in.(*ssa.BinOp)
+			if !isCmp || (cmp.Op != token.GTR && cmp.Op != token.GEQ) {
+				continue
+			}
+			call, isCall := cmp.X.(*ssa.Call)
+			if !isCall {
+				continue
+			}
+			bi, isBi := call.Call.Value.(*ssa.Builtin)
+			if !isBi || bi.Name() != "len" || call.Call.Args[0] != parents {
+				continue
+			}
+			for _, bb := range fn.Blocks {
+				if !trueEdgeDominatesOrSelf(cmp, bb) {
+					continue
+				}
+				for _, ii := range bb.Instrs {
+					if ta, isTA := ii.(*ssa.TypeAssert); isTA && namedOf(ta.AssertedType) == "compiler/ast/dag.Merge" && ta.X == fn.Params[1] {
+						ok = true
+					}
+				}
+			}
+		}
+	}
+	construct := "(*compiler/optimizer.Optimizer).propagateSortKeyOp common key of several parents"
+	if ok {
+		c.OK(rule, construct, fn.Pos(), "kept for a merge only")
+	} else {
+		c.Fail(rule, construct, fn.Pos(), "the common sort key of several parents is handed to any operator: `fork (=> pass => pass) | count() by ts` over 5000 records declared sorted on ts returns 1386 groups optimized and 715 as analysed - the final summarize streams (sort-dir) on the interleaved output of the legs")
+	}
+}
